@@ -197,7 +197,7 @@ def load_known():
 class Ctx:
     """State of one check run of one property."""
 
-    def __init__(self, prop, tier, seed):
+    def __init__(self, prop, tier, seed, keep_replays=False):
         self.prop = prop
         self.tier = tier
         self.seed = seed
@@ -220,7 +220,7 @@ class Ctx:
         self.known, _ = load_known()
         os.makedirs(os.path.join(OUT, "replays"), exist_ok=True)
         for fn in os.listdir(os.path.join(OUT, "replays")):
-            if fn.startswith(prop + "-"):
+            if fn.startswith(prop + "-") and not keep_replays:
                 os.remove(os.path.join(OUT, "replays", fn))
 
     # -- bookkeeping helpers
@@ -261,6 +261,8 @@ class Ctx:
         replay.setdefault("property", self.prop)
         replay.setdefault("what", what)
         replay.setdefault("seed", self.seed)
+        replay.setdefault("tier", self.tier)
+        replay.setdefault("key", key)
         replay.setdefault("concrete_failing_input", concrete)
         path = self.write_replay(re.sub(r"[^A-Za-z0-9_.-]", "_", key)[:80], replay)
         self.violations.append((key, what, path, concrete))
@@ -378,6 +380,24 @@ def recheck_oleans(ctx, module):
     if rc != 0:
         ctx.proof_broken.append("leanchecker rejected compiled modules: " + out[-600:])
     return rc == 0
+
+
+def replay_by_rerun(ctx, path, mod):
+    """generic replay: the checks are deterministic functions of (tree, seed, tier), so the recorded case is reproduced by
+    running the same stages again with the recorded seed and looking for the same violation key"""
+    r = json.load(open(path))
+    print(json.dumps({k: v for k, v in r.items() if k not in ("history", "ops", "sched_log")}, indent=1, default=str)[:3000])
+    if "seed" not in r or "key" not in r:
+        return 1
+    ctx2 = Ctx(ctx.prop, r.get("tier", "quick"), int(r["seed"]), keep_replays=True)
+    mod.run(ctx2)
+    same = [v for v in ctx2.violations if v[0] == r["key"]] + [k for k in ctx2.known_hits if k[0] == r["key"]]
+    others = [v for v in ctx2.violations if v[0] != r["key"]]
+    if same:
+        print(f"REPRODUCED on the current tree (seed {r['seed']}, tier {r.get('tier', 'quick')}): {r['key']}")
+    else:
+        print(f"not reproduced on the current tree (seed {r['seed']}); other violations in that run: {[v[0] for v in others][:5]}")
+    return 1 if same else 0
 
 
 def infra_fail(ctx, msg):
